@@ -109,6 +109,9 @@ Fixpoint count_true_prefix (l : list bool) (n : nat) : nat :=   (* number of tru
   | _, _ => 0
   end.
 
+Definition gl_known_type (ty : string) : bool :=
+  String.eqb ty "FEATURE" || String.eqb ty "XOR" || String.eqb ty "OR" || String.eqb ty "GENOR".
+
 Fixpoint glencoe_parse_tree (fuel : nat) (finfo_ : aval) (here : path) (parent : ptr) (node : aval)
   : result pfeature :=
   match fuel with
@@ -121,6 +124,9 @@ Fixpoint glencoe_parse_tree (fuel : nat) (finfo_ : aval) (here : path) (parent :
       match jstr nmv with Err e => Err e | Ok fname =>
       let info := mk_info fname in
       let is_plain := String.eqb fty "FEATURE" in
+      (* fix: an unknown feature type is a library error (it used to re-add the last relation made, or to
+         leave 'relation' unbound) *)
+      if negb (gl_known_type fty) then Err FlamaException else
       if jhas "children" node then
         match jget "children" node with Err e => Err e | Ok chv =>
         match jlist chv with Err e => Err e | Ok chl =>
@@ -163,21 +169,24 @@ Fixpoint glencoe_parse_tree (fuel : nat) (finfo_ : aval) (here : path) (parent :
                 let singles := map (fun ko : pfeature * bool => PRelation (PPath here) 1%Z 1%Z [fst ko])
                                    (filter (fun ko : pfeature * bool => negb (snd ko)) kids) in
                 let group := map fst (filter (fun ko : pfeature * bool => snd ko) kids) in
+                (* fix: when every member of the group is mandatory there is nothing left to group: no (empty)
+                   group relation is made *)
+                match group with
+                | [] => Ok (PFeature info parent [] singles)
+                | _ :: _ =>
                 let grp :=
                   if String.eqb fty "XOR" then Ok (1%Z, 1%Z)
                   else if String.eqb fty "OR" then Ok (1%Z, Z.of_nat (List.length group))
-                  else if String.eqb fty "GENOR" then
+                  else (* "GENOR": the only known type left *)
                     match finfo_get finfo_ fid "min" with Err e => Err e | Ok a =>
                     match finfo_get finfo_ fid "max" with Err e => Err e | Ok b =>
                     match jint a with Err e => Err e | Ok a' =>
-                    match jint b with Err e => Err e | Ok b' => Ok (a', b') end end end end
-                  else
-                    (* unknown type: 'relation' is unbound, or still names the last relation made *)
-                    match singles with [] => Err UnboundLocalError | _ => Err OtherExn end in
+                    match jint b with Err e => Err e | Ok b' => Ok (a', b') end end end end in
                 match grp with
                 | Err e => Err e
                 | Ok (a, b) =>
                     Ok (PFeature info parent [] (singles ++ [PRelation (PPath here) a b group]))
+                end
                 end
           end
         end end
